@@ -1788,19 +1788,213 @@ example :
     renderC .strict cA (.len (lst [rA, rN])) (some (.last (lst [rN])))
       = .error (.undefined ⟨"nope".toList, []⟩) := by decide
 
+/-! ### the remaining laws: joining, indexing, `last`, dict keys; consumers only drop -/
+theorem joinStrs_used (sep : Str) (pvs : List (Str × PVal)) :
+    (match joinStrs sep (pvs.map Prod.snd) with
+      | .error (.undefined _) => true
+      | .error _ => false
+      | .ok _ => false) = (findUndefItems pvs).isSome := by
+  induction pvs with
+  | nil => simp [joinStrs, findUndefItems]
+  | cons a rest ih =>
+    obtain ⟨key, pv⟩ := a
+    simp only [List.map_cons, joinStrs, findUndefItems]
+    cases hs : pv.str .strict with
+    | error x =>
+      obtain ⟨p, rfl⟩ := str_error_is_undefined hs
+      have := (str_error_iff_findUndef pv).mp ⟨_, hs⟩
+      obtain ⟨q, hq⟩ := Option.isSome_iff_exists.mp this
+      simp [hq]
+    | ok s =>
+      have hn : pv.findUndef = none := by
+        cases hf : pv.findUndef with
+        | none => rfl
+        | some q =>
+          obtain ⟨x, hx⟩ := (str_error_iff_findUndef pv).mpr (by simp [hf])
+          rw [hs] at hx; cases hx
+      simp only [hn]
+      rw [← ih]
+      cases hj : joinStrs sep (rest.map Prod.snd) with
+      | error x => cases x <;> simp
+      | ok r => simp
+
+/-- **joining law**: `[…]|join('sep')` over a list / tuple literal uses an undefined reference
+iff one of its items does — every element is printed, nothing is dropped -/
+theorem used_join_coll (ctx : Ctx) (sep : Str) (k : CKind) (items : List (Str × CExpr))
+    (hk : k = .list ∨ k = .tuple) (hoff : OffFragment ctx (.join sep (.coll k items)) = false) :
+    UsedUndef ctx (.join sep (.coll k items)) = items.any fun kv => UsedUndef ctx kv.2 := by
+  have hoff' : OffFragment ctx (.coll k items) = false := by
+    cases hr : evalCItems ctx items with
+    | error x => cases x <;> simp [OffFragment, evalC, hr] at hoff ⊢
+    | ok pvs => simp [OffFragment, evalC, hr]
+  rw [← used_coll ctx k items hoff']
+  cases hr : evalCItems ctx items with
+  | error x => cases x <;> simp [UsedUndef, evalC, hr]
+  | ok pvs =>
+    have := joinStrs_used sep pvs
+    rcases hk with rfl | rfl <;>
+      simp only [UsedUndef, evalC, hr, PVal.join, PVal.elems, CKind.norm, PVal.findUndef, ← this] <;>
+      (cases hj : joinStrs sep (pvs.map Prod.snd) with
+        | error x => cases x <;> simp
+        | ok r => simp [PVal.findUndef])
+
+theorem evalCItems_getElem {ctx : Ctx} {items : List (Str × CExpr)} {pvs : List (Str × PVal)}
+    (h : evalCItems ctx items = .ok pvs) (i : Nat) :
+    ((pvs[i]?).map fun pkv => pkv.2.findUndef.isSome) = ((items[i]?).map fun kv => UsedUndef ctx kv.2) := by
+  induction items generalizing pvs i with
+  | nil => simp [evalCItems] at h; subst h; simp
+  | cons a rest ih =>
+    obtain ⟨k, e⟩ := a
+    simp only [evalCItems] at h
+    cases he : evalC ctx e with
+    | error y => rw [he] at h; cases h
+    | ok pv =>
+      rw [he] at h
+      cases hr : evalCItems ctx rest with
+      | error y => rw [hr] at h; cases h
+      | ok ps =>
+        rw [hr] at h; simp at h; subst h
+        cases i with
+        | zero => simp [UsedUndef, he]
+        | succ j => simpa using ih hr j
+
+/-- **indexing law**: `[…][i]` over a list / tuple literal uses an undefined reference iff the
+item at `i` does, or evaluating one of the items fails — the other items are dropped -/
+theorem used_index_coll (ctx : Ctx) (k : CKind) (items : List (Str × CExpr)) (i : Nat)
+    (hk : k = .list ∨ k = .tuple) (hoff : OffFragment ctx (.index (.coll k items) i) = false) :
+    UsedUndef ctx (.index (.coll k items) i) =
+      (((items[i]?).map fun kv => UsedUndef ctx kv.2).getD false || RaisesItems ctx items) := by
+  cases hr : evalCItems ctx items with
+  | error x =>
+    cases x <;> simp [OffFragment, evalC, hr] at hoff <;> simp [UsedUndef, RaisesItems, evalC, hr]
+  | ok pvs =>
+    rw [← evalCItems_getElem hr i]
+    cases hi : pvs[i]? with
+    | none =>
+      rcases hk with rfl | rfl <;>
+        simp [OffFragment, evalC, hr, PVal.index, PVal.elems, PVal.isDict, CKind.norm, hi] at hoff
+    | some pkv =>
+      rcases hk with rfl | rfl <;>
+        simp [UsedUndef, RaisesItems, evalC, hr, PVal.index, PVal.elems, PVal.isDict, CKind.norm, hi]
+
+theorem evalCItems_length {ctx : Ctx} {items : List (Str × CExpr)} {pvs : List (Str × PVal)}
+    (h : evalCItems ctx items = .ok pvs) : pvs.length = items.length := by
+  induction items generalizing pvs with
+  | nil => simp [evalCItems] at h; subst h; rfl
+  | cons a rest ih =>
+    obtain ⟨k, e⟩ := a
+    simp only [evalCItems] at h
+    cases he : evalC ctx e with
+    | error y => rw [he] at h; cases h
+    | ok pv =>
+      rw [he] at h
+      cases hr : evalCItems ctx rest with
+      | error y => rw [hr] at h; cases h
+      | ok ps => rw [hr] at h; simp at h; subst h; simp [ih hr]
+
+/-- **selecting law for `last`** -/
+theorem used_last_coll (ctx : Ctx) (k : CKind) (items : List (Str × CExpr))
+    (hk : k = .list ∨ k = .tuple) (hoff : OffFragment ctx (.last (.coll k items)) = false) :
+    UsedUndef ctx (.last (.coll k items)) =
+      (((items.getLast?).map fun kv => UsedUndef ctx kv.2).getD false || RaisesItems ctx items) := by
+  cases hr : evalCItems ctx items with
+  | error x =>
+    cases x <;> simp [OffFragment, evalC, hr] at hoff <;> simp [UsedUndef, RaisesItems, evalC, hr]
+  | ok pvs =>
+    have hl := evalCItems_length hr
+    rw [List.getLast?_eq_getElem?, ← hl, ← evalCItems_getElem hr (pvs.length - 1)]
+    have hg : (pvs.map Prod.snd).getLast? = (pvs[pvs.length - 1]?).map Prod.snd := by
+      rw [List.getLast?_eq_getElem?]; simp
+    cases hi : pvs[pvs.length - 1]? with
+    | none =>
+      rcases hk with rfl | rfl <;>
+        simp [OffFragment, evalC, hr, PVal.last, PVal.elems, CKind.norm, hg, hi] at hoff
+    | some pkv =>
+      rcases hk with rfl | rfl <;>
+        simp [UsedUndef, RaisesItems, evalC, hr, PVal.last, PVal.elems, CKind.norm, hg, hi]
+
+/-- **keys law for `last` and `join`**: a dict literal is consumed through its keys -/
+theorem used_last_dict (ctx : Ctx) (k : CKind) (items : List (Str × CExpr))
+    (hk : k = .dict ∨ k = .dictCall) (hoff : OffFragment ctx (.last (.coll k items)) = false) :
+    UsedUndef ctx (.last (.coll k items)) = RaisesItems ctx items := by
+  cases hr : evalCItems ctx items with
+  | error e => cases e <;> simp [UsedUndef, RaisesItems, evalC, hr]
+  | ok pvs =>
+    cases hg : (pvs.map fun kv => PVal.val (.str kv.1)).getLast? with
+    | none =>
+      rcases hk with rfl | rfl <;>
+        simp [OffFragment, evalC, hr, PVal.last, PVal.elems, CKind.norm, hg] at hoff
+    | some x =>
+      have hx : x.findUndef = none := by
+        have := List.mem_of_getLast? hg
+        simp at this
+        obtain ⟨a, b, _, rfl⟩ := this
+        rfl
+      rcases hk with rfl | rfl <;>
+        simp [UsedUndef, RaisesItems, evalC, hr, PVal.last, PVal.elems, CKind.norm, hg, hx]
+
+theorem used_join_dict (ctx : Ctx) (sep : Str) (k : CKind) (items : List (Str × CExpr))
+    (hk : k = .dict ∨ k = .dictCall) :
+    UsedUndef ctx (.join sep (.coll k items)) = RaisesItems ctx items := by
+  cases hr : evalCItems ctx items with
+  | error e => cases e <;> simp [UsedUndef, RaisesItems, evalC, hr]
+  | ok pvs =>
+    obtain ⟨s, hs⟩ := joinStrs_clean sep (xs := pvs.map fun kv => PVal.val (.str kv.1))
+      (by intro x hx; simp at hx; obtain ⟨a, b, _, rfl⟩ := hx; exact clean_val _)
+    rcases hk with rfl | rfl <;>
+      simp [UsedUndef, RaisesItems, evalC, hr, PVal.join, PVal.elems, CKind.norm, hs, PVal.findUndef]
+
+/-- **a consumer never CREATES a use**: if `e|length`, `e|first`, `e|last`, `e[i]` or
+`e|join(sep)` (inside the fragment) uses an undefined reference, `e` already does — consumers
+only DROP uses, which is why F-C16-d goes one way only -/
+theorem consumer_used_mono (ctx : Ctx) (e : CExpr) (hu : UsedUndef ctx e = false) :
+    (OffFragment ctx (.len e) = false → UsedUndef ctx (.len e) = false) ∧
+    (OffFragment ctx (.first e) = false → UsedUndef ctx (.first e) = false) ∧
+    (OffFragment ctx (.last e) = false → UsedUndef ctx (.last e) = false) ∧
+    (∀ i, OffFragment ctx (.index e i) = false → UsedUndef ctx (.index e i) = false) ∧
+    (∀ sep, OffFragment ctx (.join sep e) = false → UsedUndef ctx (.join sep e) = false) := by
+  have key : ∀ (op : PVal → Except Err PVal), (∀ pv, Clean pv → Quiet (op pv)) →
+      ∀ e', (evalC ctx e' = match evalC ctx e with | .error x => .error x | .ok pv => op pv) →
+      OffFragment ctx e' = false → UsedUndef ctx e' = false := by
+    intro op hop e' heq hoff
+    cases he : evalC ctx e with
+    | error x =>
+      rw [he] at heq
+      cases x <;> simp [UsedUndef, he] at hu <;> simp [UsedUndef, OffFragment, heq] at hoff ⊢
+    | ok pv =>
+      rw [he] at heq
+      have hc : Clean pv := by
+        apply (findUndef_none_iff_clean pv).mp
+        cases hf : pv.findUndef with
+        | none => rfl
+        | some q => simp [UsedUndef, he, hf] at hu
+      have q := hop pv hc
+      simp only at heq
+      unfold UsedUndef
+      rw [heq]
+      cases hr : op pv with
+      | error x =>
+        cases x with
+        | undefined p => exact absurd hr (q.1 p)
+        | _ => rfl
+      | ok r => simp [(findUndef_none_iff_clean r).mpr (q.2 r hr)]
+  exact ⟨key _ (fun _ => quiet_len) _ (by simp only [evalC]; cases evalC ctx e <;> rfl),
+    key _ (fun _ => quiet_first) _ (by simp only [evalC]; cases evalC ctx e <;> rfl),
+    key _ (fun _ => quiet_last) _ (by simp only [evalC]; cases evalC ctx e <;> rfl),
+    fun i => key _ (fun _ => quiet_index i) _ (by simp only [evalC]; cases evalC ctx e <;> rfl),
+    fun sep => key _ (fun _ => quiet_join sep) _ (by simp only [evalC]; cases evalC ctx e <;> rfl)⟩
+
 /-! ### not proved -/
 
-/-- the remaining selecting laws (index, last, join over a list / tuple literal), in the style of
-`used_first_cons`: NOT proved — together with `used_ref`, `used_dflt`, `used_len`, `used_coll`,
-`used_first_cons`, `used_first_dict` they would make `UsedUndef` a purely syntactic recursion on
-literal-headed expressions.  (A consumer applied to a CONTEXT value needs that value: `xs|first`
-is outside the fragment exactly when `xs` is empty.) -/
-def selecting_laws_full : Prop :=
-  ∀ (ctx : Ctx) (k : CKind) (items : List (Str × CExpr)), (k = .list ∨ k = .tuple) →
-    (∀ i, OffFragment ctx (.index (.coll k items) i) = false →
-      UsedUndef ctx (.index (.coll k items) i) =
-        (((items[i]?).map fun kv => UsedUndef ctx kv.2).getD false || RaisesItems ctx items)) ∧
-    (∀ sep, OffFragment ctx (.join sep (.coll k items)) = false →
-      UsedUndef ctx (.join sep (.coll k items)) = items.any fun kv => UsedUndef ctx kv.2)
-
+/-- NOT proved: a closed syntactic recursion for `UsedUndef`.  The laws above (`used_ref`,
+`used_dflt`, `used_len`, `used_coll`, `used_first_cons`, `used_last_coll`, `used_index_coll`,
+`used_join_coll`, `used_first_dict`, `used_last_dict`, `used_join_dict`) rewrite every consumer
+applied DIRECTLY to a literal and `consumer_used_mono` bounds the rest; the exact law for a
+consumer applied to another consumer's RESULT is missing — its first instance: -/
+def selecting_composes_full : Prop :=
+  ∀ (ctx : Ctx) (k k' : CKind) (key key' : Str) (x : CExpr) (r rest : List (Str × CExpr)),
+    (k = .list ∨ k = .tuple) → (k' = .list ∨ k' = .tuple) →
+    OffFragment ctx (.coll k ((key, .coll k' ((key', x) :: r)) :: rest)) = false →
+    UsedUndef ctx (.first (.first (.coll k ((key, .coll k' ((key', x) :: r)) :: rest)))) =
+      (UsedUndef ctx x || RaisesItems ctx r || RaisesItems ctx rest)
 end Rpft.Props.C16
